@@ -1,0 +1,35 @@
+//go:build verif
+
+// Contracts for package filehandler, checked by /verif/govc (see /verif/DESIGN.md).
+// This file contains only comments; it is compiled only with -tags verif and
+// has no effect on the package.
+
+package filehandler
+
+// Reader stage.  The source is a prophecy (see /verif/spec/trusted.spec): rin(reader)
+// is everything it will deliver, rdErr(reader, k) the error of Read call k - any
+// placement of end-of-file, timeouts and other errors.  The stage forwards exactly
+// the bytes it has read, each once and in order, to the byte channel, which it
+// closes when it returns; it returns only with the error of its last Read, and every
+// earlier error was a tolerated one (end of file or an i/o timeout).
+//@ define tolerated(e) = e == io.EOF || strcontains(errmsg(e), "i/o timeout")
+
+//@ func New
+//@ ensures result != nil && fresh(result)
+//@ ensures[C09] result.MessageChan == messageChan && result.Config == config
+
+//@ func (*Handler).Handle
+//@ requires[C07] handler != nil && reader != nil && handler.Config != nil
+//@ requires[C09] handler.MessageChan != nil && !closed(handler.MessageChan) && allocated(handler.MessageChan)
+//@ noterm the reader stage runs until its source fails for good (end of file beyond the tolerance or another error); that the source eventually does is a hypothesis of C09/C13
+//@ let c0 = gc("rdbytes", reader)
+//@ let k0 = gc("rdcalls", reader)
+//@ modifies handler.RTCMHandler, gc("rdbytes", reader), gc("rdcalls", reader), gc("clock", 0), closed(handler.MessageChan)
+//@ ensures[C13,C09] result != nil && closed(byteChan)
+//@ ensures[C13,C09] sentn(byteChan) == gc("rdbytes", reader) - c0 && forall(k, 0, sentn(byteChan), sent(byteChan)[k] == rin(reader)[c0 + k])
+//@ ensures[C13] gc("rdcalls", reader) > k0 && result == rdErr(reader, gc("rdcalls", reader) - 1)
+//@ ensures[C13] forall(k, k0, gc("rdcalls", reader) - 1, rdErr(reader, k) == nil || tolerated(rdErr(reader, k)))
+//@ loop 1
+//@ invariant[C13,C09] byteChan != nil && fresh(byteChan) && !closed(byteChan) && gc("rdcalls", reader) >= k0
+//@ invariant[C13,C09] sentn(byteChan) == gc("rdbytes", reader) - c0 && forall(k, 0, sentn(byteChan), sent(byteChan)[k] == rin(reader)[c0 + k])
+//@ invariant[C13] forall(k, k0, gc("rdcalls", reader), rdErr(reader, k) == nil || tolerated(rdErr(reader, k)))
